@@ -181,12 +181,11 @@ def markdown_first_line_is_rule(lines: list[str]) -> bool:
     """
     A paragraph may begin with a word like `---` (as in `--- and more`). If wrapping leaves
     it alone on the paragraph's first line, or with more of the same (`-- -`), the line would
-    become a thematic break (or a frontmatter delimiter). Likewise a paragraph that begins
-    with `[label]: word` becomes a link reference definition once a line ends after the word.
+    become a thematic break (or a frontmatter delimiter). (A paragraph that begins like a
+    link reference definition is handled where whole paragraphs are seen, see
+    `markdown_starts_like_definition()`.)
     """
-    return len(lines) > 1 and bool(
-        _md_thematic_pat.match(lines[0]) or _md_def_label_pat.match(lines[0])
-    )
+    return len(lines) > 1 and bool(_md_thematic_pat.match(lines[0]))
 
 
 def markdown_line_is_rule(line: str) -> bool:
